@@ -185,7 +185,11 @@ def main():
                 for th, kw in (("standard_Redfield", {}),
                                ("standard_Redfield",
                                 dict(time_dependent=True)),
-                               ("standard_Foerster", {})):
+                               ("standard_Foerster", {}),
+                               # (the combined theory WITHOUT a cut-off,
+                               # last: nothing afterwards touches the flags
+                               # of the shared Hamiltonian)
+                               ("combined_RedfieldFoerster", {})):
                     RT, H2 = self.ag.get_RelaxationTensor(
                         self.ta, relaxation_theory=th, **kw)
                     d = numpy.array(RT.data)
